@@ -531,3 +531,9 @@ _addtie("C14", ["TieCopy"], TIE_COPYREAD + TIE_BINCOPY)
 _addtie("C04", ["TieCopy", "TieSlurp"], TIE_COPYREAD + TIE_BINCOPY + TIE_SLURP)
 _addtie("C10", ["TieCopy", "TieSlurp"], [_T + "tie_CopyRead_exceeded", _T + "absErr_lengthExceeds", _T + "lengthFmt_eq"] + TIE_SLURP)
 _addtie("C03", ["TieSlurp"], TIE_SLURP)
+# wave 5 (continued): a transient write fault must not leave partial bytes in front of the next message (C02);
+# what a connection makes of its bytes must not depend on what other connections read in between (C03);
+# an oversized CopyData inside a binary COPY (C14: the `copy` campaign places one in every position)
+_addcamp("C02", "wfonce", 300, 30000)
+_addcamp("C03", "multi", 300, 10000)
+_addcamp("C14", "copy", 800, 30000)
